@@ -157,6 +157,19 @@ func runC05(c *Ctx) {
 		})
 		// and the verify loop is entered from index 0 to len
 		c.Check(name+"#all-entries", verify.Pos(), whole && foundLoop && inLoop(verify), ifelse(whole && foundLoop, "the verification loop ranges over the whole Signs list", "the verification does not range over the whole Signs list"))
+		// no entry skips the verification: every back edge of the loop is dominated by Verify
+		skip := ""
+		for _, hb := range pds.Blocks {
+			if !isLoopHeader(hb) || !naturalLoop(hb)[verify.Block()] {
+				continue
+			}
+			for _, p := range hb.Preds {
+				if hb.Dominates(p) && !verify.Block().Dominates(p) {
+					skip = w.Pos(p.Instrs[len(p.Instrs)-1].Pos())
+				}
+			}
+		}
+		c.Check(name+"#no-entry-skips-verification", verify.Pos(), skip == "", ifelse(skip == "", "every iteration of the entry loop passes Verify", "an iteration can continue to the next entry without verifying this one ("+skip+"): a (hash, signature) pair that was never checked counts as evidence"))
 		// signer cache has one writer
 		for _, fn := range w.FuncsIn(stakingPkg) {
 			for _, ci := range callInstrs(fn) {
